@@ -391,7 +391,7 @@ End SemEqH.
 
 (** * Sem's heap only grows (on the fragment) *)
 
-Ltac gr_triv := solve [unfold grows; cbn [rstate]; lia | exact I].
+Ltac gr_triv := solve [unfold grows; cbn [rstate Sem.set_cell st_heap]; lia | exact I].
 
 Lemma grows_index_get : forall st base idx, grows st (sem_index_get st base idx).
 Proof.
@@ -775,3 +775,527 @@ Section Ops.
         exact (get_arr_ints _ _ _ (RS_hints _ _ _ _ _ _ _ HR) Gm).
   Qed.
 End Ops.
+
+(** * Literals and names below a construct *)
+
+Lemma lits_infix : forall l o r, lits_e (EInfix l o r) = lits_e l ++ lits_e r.
+Proof. reflexivity. Qed.
+Lemma lits_prefix : forall o r, lits_e (EPrefix o r) = lits_e r.
+Proof. reflexivity. Qed.
+Lemma lits_if : forall c t alt,
+  lits_e (EIf c t alt) = lits_e c ++ lits_b t ++ match alt with Some b => lits_b b | None => [] end.
+Proof. reflexivity. Qed.
+Lemma lits_while : forall c b, lits_e (EWhile c b) = lits_e c ++ lits_b b.
+Proof. reflexivity. Qed.
+Lemma lits_assign : forall l r, lits_e (EAssign l r) = lits_e l ++ lits_e r.
+Proof. reflexivity. Qed.
+Lemma lits_index : forall l i, lits_e (EIndex l i) = lits_e l ++ lits_e i.
+Proof. reflexivity. Qed.
+Lemma lits_array : forall vs, lits_e (EArray vs) = lits_l vs.
+Proof. reflexivity. Qed.
+Lemma lits_call : forall f args, lits_e (ECall f args) = lits_l args ++ lits_e f.
+Proof. reflexivity. Qed.
+Lemma lits_b_cons : forall s r, lits_b (s :: r) = lits_s s ++ lits_b r.
+Proof. reflexivity. Qed.
+Lemma lits_s_block : forall b, lits_s (SBlock b) = lits_b b.
+Proof. reflexivity. Qed.
+Lemma lits_l_cons : forall x r, lits_l (x :: r) = lits_e x ++ lits_l r.
+Proof. reflexivity. Qed.
+
+Definition mentions_list (x : text) : list expr -> bool :=
+  fix go (l : list expr) : bool := match l with [] => false | y :: r => mentions x y || go r end.
+
+Lemma mentions_list_cons : forall x y r, mentions_list x (y :: r) = mentions x y || mentions_list x r.
+Proof. reflexivity. Qed.
+
+Lemma mentions_array : forall x vs, mentions x (EArray vs) = mentions_list x vs.
+Proof. reflexivity. Qed.
+Lemma mentions_call : forall x f args, mentions x (ECall f args) = mentions x f || mentions_list x args.
+Proof. reflexivity. Qed.
+Lemma mentions_index : forall x l i, mentions x (EIndex l i) = mentions x l || mentions x i.
+Proof. reflexivity. Qed.
+
+Definition holes_ok_l (holes : list nat) (ds : decls) (l : list expr) : Prop :=
+  forall h y c, In h holes -> nth_error ds h = Some (y, c) -> mentions_list y l = false.
+
+Lemma Forall_app_l : forall A (P : A -> Prop) a b, Forall P (a ++ b) -> Forall P a.
+Proof. intros A P a b H. apply Forall_app in H. exact (proj1 H). Qed.
+Lemma Forall_app_r : forall A (P : A -> Prop) a b, Forall P (a ++ b) -> Forall P b.
+Proof. intros A P a b H. apply Forall_app in H. exact (proj2 H). Qed.
+
+(** * Sem agrees with the intermediate evaluator *)
+
+Section Agree.
+  Variable orc : oracle.
+  Variable K : Z.
+  Variable pl : list (const * val).
+
+  Notation RelS := (RelS K pl).
+  Notation corr := (corr K pl).
+  Notation corrl := (corrl K pl).
+  Notation bounded := (bounded K).
+
+  Definition LG (e : expr) : Prop := Forall (lit_good pl) (lits_e e).
+  Definition LGb (l : list stmt) : Prop := Forall (lit_good pl) (lits_b l).
+  Definition LGl (l : list expr) : Prop := Forall (lit_good pl) (lits_l l).
+
+  Lemma Pval_mono : forall R R' v v', rel_incl R R' -> Pval R v v' -> Pval R' v v'.
+  Proof. intros R R' v v' Hi [H1 H2]. split; [exact (val_rel_mono _ _ _ _ Hi H1)|exact H2]. Qed.
+
+  Lemma Pval_null : forall R, Pval R VNull VNull.
+  Proof. intros R. split; [constructor|reflexivity]. Qed.
+
+  Ltac gr :=
+    first [ gr_triv
+          | apply grows_lift_heap;
+            first [apply binop_grows | apply negate_grows | apply alloc_str_grows | apply alloc_float_grows]
+          | apply grows_lift_plain | apply grows_index_get | apply grows_index_set
+          | apply grows_array | apply grows_builtin ].
+
+  (* two consecutive computations whose relations are stated for different sets of holes / live
+     declarations (a declaration: the initialiser sees the new, still unset, variable) *)
+  Lemma corrg_bind2 : forall A B A' B' (P : loc_rel -> A -> B -> Prop) (Q : loc_rel -> A' -> B' -> Prop)
+    holes1 ds1 holes2 ds2 R (r : res A) (x : hres B) (k : A -> sstate -> res A') (kx : B -> hst -> hres B'),
+    (forall a st1, grows st1 (k a st1)) ->
+    bounded (rbind r k) -> hnosig x ->
+    (bounded r -> corrg K pl P holes1 ds1 R r x) ->
+    (forall a b sst1 m1 R1, rel_incl R R1 -> P R1 a b -> RelS holes1 ds1 R1 sst1 m1 ->
+       bounded (k a sst1) -> corrg K pl Q holes2 ds2 R1 (k a sst1) (kx b m1)) ->
+    corrg K pl Q holes2 ds2 R (rbind r k) (hbind x kx).
+  Proof.
+    intros A B A' B' P Q holes1 ds1 holes2 ds2 R r x k kx Hg Hb Hns Hr Hk.
+    destruct r as [a s1|sg s1|e s1|f s1|]; cbn [rbind] in *; try exact I.
+    - destruct (rstate (k a s1)) as [s2|] eqn:Es.
+      + assert (bounded (ROk a s1)) as Hb1.
+        { unfold bounded. cbn [rstate]. apply (bounded_grows K _ s1 (k a s1) (Hg a s1) Hb). rewrite Es. discriminate. }
+        specialize (Hr Hb1). destruct x as [b m'|m'|m'|k' o|f' o|]; cbn [corrg] in Hr; try contradiction.
+        destruct Hr as [R1 [H1 [H2 H3]]]. cbn [hbind].
+        apply (corrg_weaken K pl _ _ _ _ _ R R1 _ _ H1). apply Hk; assumption.
+      + destruct (k a s1); cbn [rstate] in Es; try discriminate Es. exact I.
+    - specialize (Hr Hb). destruct sg as [| |rv]; destruct x as [b m'|m'|m'|k' o|f' o|]; cbn [corrg hbind hnosig] in *;
+        contradiction.
+    - specialize (Hr Hb). destruct x as [b m'|m'|m'|k' o|f' o|]; cbn [corrg hbind] in *; try contradiction; exact Hr.
+    - specialize (Hr Hb). destruct x as [b m'|m'|m'|k' o|f' o|]; cbn [corrg hbind] in *; try contradiction; exact Hr.
+  Qed.
+
+  Section Fuel.
+    Variable f : nat.
+    (* the induction hypothesis for expressions at fuel f *)
+    Hypothesis IHe : forall lp e c ds sst m holes R, f2he lp e = true -> LG e -> ctx_flat c ds ->
+      RelS holes ds R sst m -> holes_lt holes ds -> holes_ok holes ds e ->
+      bounded (eval_expr orc f c e sst) ->
+      corr holes ds R (eval_expr orc f c e sst) (heval orc pl f (map fst ds) e m).
+
+    Lemma list_agree : forall l c ds sst m holes R, f2hl l = true -> LGl l -> ctx_flat c ds ->
+      RelS holes ds R sst m -> holes_lt holes ds -> holes_ok_l holes ds l ->
+      bounded (sem_list orc f c l sst) ->
+      corrl holes ds R (sem_list orc f c l sst) (heval_list orc pl f (map fst ds) l m).
+    Proof.
+      induction l as [|x r IH]; intros c ds sst m holes R HF HL Hc HR Hlt Hok Hb.
+      - rewrite sl_nil, hl_nil. exists R. split; [apply rel_incl_refl|]. split; [split; constructor|exact HR].
+      - rewrite f2hl_cons in HF. apply andb_prop in HF. destruct HF as [HFx HFr].
+        unfold LGl in HL. rewrite lits_l_cons in HL.
+        assert (holes_ok holes ds x) as Hokx.
+        { intros h y cc Hin Hn. pose proof (Hok h y cc Hin Hn) as Hm. rewrite mentions_list_cons in Hm.
+          exact (orb_false_l _ _ Hm). }
+        assert (holes_ok_l holes ds r) as Hokr.
+        { intros h y cc Hin Hn. pose proof (Hok h y cc Hin Hn) as Hm. rewrite mentions_list_cons in Hm.
+          exact (orb_false_r' _ _ Hm). }
+        rewrite sl_cons, hl_cons. rewrite sl_cons in Hb.
+        apply (corrg_bind K pl _ _ _ _ (Pval) (Plist)); [|exact Hb| |].
+        + intros a st1. apply grows_rbind; [apply sem_list_grows; exact HFr|]. intros; gr_triv.
+        + intros Hb1. apply (IHe false); try assumption. exact (Forall_app_l _ _ _ _ HL).
+        + intros a b sst1 m1 R1 Hi [Hab Hlb] HR1 Hb1.
+          apply (corrg_bind K pl _ _ _ _ (Plist) (Plist)); [|exact Hb1| |].
+          * intros; gr_triv.
+          * intros Hb2. apply IH; try assumption. exact (Forall_app_r _ _ _ _ HL).
+          * intros vs vs' sst2 m2 R2 Hi2 [Hvs Hvi] HR2 _. cbn [corrl corrg].
+            exists R2. split; [apply rel_incl_refl|]. split; [|exact HR2].
+            split; [constructor; [exact (val_rel_mono _ _ _ _ Hi2 Hab)|exact Hvs]|apply ints_cons; assumption].
+    Qed.
+  End Fuel.
+
+  Theorem sem_heval : forall fuel,
+    (forall lp e c ds sst m holes R, f2he lp e = true -> LG e -> ctx_flat c ds ->
+       RelS holes ds R sst m -> holes_lt holes ds -> holes_ok holes ds e ->
+       bounded (eval_expr orc fuel c e sst) ->
+       corr holes ds R (eval_expr orc fuel c e sst) (heval orc pl fuel (map fst ds) e m)) /\
+    (forall iter cnd body c ds sst m holes R last last', f2he false cnd = true -> f2hb true body = true ->
+       LG cnd -> LGb body -> ctx_flat c ds -> RelS holes ds R sst m -> holes_lt holes ds ->
+       holes_ok holes ds cnd -> holes_ok_b holes ds body -> Pval R last last' ->
+       bounded (eval_while orc fuel iter c cnd body last sst) ->
+       corr holes ds R (eval_while orc fuel iter c cnd body last sst)
+                       (hwhile orc pl fuel (map fst ds) cnd body last' m)) /\
+    (forall lp l c ds sst m holes R last last', f2hb lp l = true -> LGb l -> ctx_flat c ds ->
+       RelS holes ds R sst m -> holes_lt holes ds -> holes_ok_b holes ds l -> Pval R last last' ->
+       bounded (exec_block orc fuel c l last sst) ->
+       corr holes ds R (exec_block orc fuel c l last sst) (hstmts orc pl fuel (map fst ds) l last' m)).
+  Proof.
+    induction fuel as [|f [IHe [IHw IHs]]].
+    - repeat split; intros; exact I.
+    - assert (forall lp e c st, f2he lp e = true -> grows st (eval_expr orc f c e st)) as Ge
+        by (intros; eapply (proj1 (eval_grows orc f)); eassumption).
+      assert (forall lp l c last st, f2hb lp l = true -> grows st (exec_block orc f c l last st)) as Gs
+        by (intros; eapply (proj2 (proj2 (eval_grows orc f))); eassumption).
+      assert (forall iter cnd body c last st, f2he false cnd = true -> f2hb true body = true ->
+                grows st (eval_while orc f iter c cnd body last st)) as Gw
+        by (intros; eapply (proj1 (proj2 (eval_grows orc f))); eassumption).
+      split; [|split].
+      + (* expressions *)
+        intros lp e c ds sst m holes R HF HL Hc HR Hlt Hok Hb.
+        destruct e as [e1 o e2|o e|z|fl|bb|cnd t alt|s|n ps body|h args|e1 e2|str|vs|bs i|cnd body]; try discriminate HF.
+        * (* EInfix *)
+          rewrite f2he_infix in HF. apply andb_prop in HF. destruct HF as [HF Hr].
+          apply andb_prop in HF. destruct HF as [Hop Hl].
+          unfold LG in HL. rewrite lits_infix in HL.
+          rewrite ee_infix, he_infix. rewrite ee_infix in Hb.
+          assert (holes_ok holes ds e1) as Hok1.
+          { intros h y cc Hin Hn. pose proof (Hok h y cc Hin Hn) as Hm. rewrite mentions_infix in Hm.
+            exact (orb_false_l _ _ Hm). }
+          assert (holes_ok holes ds e2) as Hok2.
+          { intros h y cc Hin Hn. pose proof (Hok h y cc Hin Hn) as Hm. rewrite mentions_infix in Hm.
+            exact (orb_false_r' _ _ Hm). }
+          apply (corrg_bind K pl _ _ _ _ Pval Pval); [|exact Hb| |].
+          -- intros a st1. apply grows_rbind; [exact (Ge false e2 c st1 Hr)|]. intros b st2.
+             destruct (Sem.method_of o); gr.
+          -- intros Hb1. apply (IHe false); try assumption. exact (Forall_app_l _ _ _ _ HL).
+          -- intros a a' sst1 m1 R1 Hi1 [Ha Hla] HR1 Hb1.
+             apply (corrg_bind K pl _ _ _ _ Pval Pval); [|exact Hb1| |].
+             ++ intros b st2. destruct (Sem.method_of o); gr.
+             ++ intros Hb2. apply (IHe false); try assumption. exact (Forall_app_r _ _ _ _ HL).
+             ++ intros b b' sst2 m2 R2 Hi2 [Hbv Hlb] HR2 Hb2.
+                destruct (Sem.method_of o) as [mth|] eqn:Em; [|exact (err_corr K pl _ _ _ _ _ _ HR2)].
+                destruct (binop orc mth (st_heap sst2) a b) as [rr| | |] eqn:Eb.
+                ** assert (small K (st_heap sst2)) as Hsm.
+                   { pose proof (binop_grows orc mth (st_heap sst2) a b) as Hg. rewrite Eb in Hg.
+                     destruct rr as [v hh]. cbn [lift_heap nalloc_le snd] in *.
+                     unfold bounded in Hb2. cbn [rstate st_heap] in Hb2. unfold small in *. lia. }
+                   rewrite <- Eb. apply (corr_lift_h K pl _ _ _ _ _ _ _ HR2).
+                   --- apply (binop_rel orc K R2 _ _ (RS_hr _ _ _ _ _ _ _ HR2) Hsm); [exact (val_rel_mono _ _ _ _ Hi2 Ha)|exact Hbv].
+                   --- apply binop_post; [|exact (RS_hints _ _ _ _ _ _ _ HR2)].
+                       unfold Sem.method_of in Em.
+                       destruct (assoc operator_eqb o compile_operator_table) as [opc|]; [|discriminate Em].
+                       exact (dispatch_known opc mth (or_introl Em)).
+                ** assert (small K (st_heap sst2)) as Hsm by exact Hb2.
+                   rewrite <- Eb. apply (corr_lift_h K pl _ _ _ _ _ _ _ HR2).
+                   --- apply (binop_rel orc K R2 _ _ (RS_hr _ _ _ _ _ _ _ HR2) Hsm); [exact (val_rel_mono _ _ _ _ Hi2 Ha)|exact Hbv].
+                   --- apply binop_post; [|exact (RS_hints _ _ _ _ _ _ _ HR2)].
+                       unfold Sem.method_of in Em.
+                       destruct (assoc operator_eqb o compile_operator_table) as [opc|]; [|discriminate Em].
+                       exact (dispatch_known opc mth (or_introl Em)).
+                ** assert (small K (st_heap sst2)) as Hsm by exact Hb2.
+                   rewrite <- Eb. apply (corr_lift_h K pl _ _ _ _ _ _ _ HR2).
+                   --- apply (binop_rel orc K R2 _ _ (RS_hr _ _ _ _ _ _ _ HR2) Hsm); [exact (val_rel_mono _ _ _ _ Hi2 Ha)|exact Hbv].
+                   --- apply binop_post; [|exact (RS_hints _ _ _ _ _ _ _ HR2)].
+                       unfold Sem.method_of in Em.
+                       destruct (assoc operator_eqb o compile_operator_table) as [opc|]; [|discriminate Em].
+                       exact (dispatch_known opc mth (or_introl Em)).
+                ** exact I.
+        * (* EPrefix *)
+          rewrite f2he_prefix in HF. apply andb_prop in HF. destruct HF as [Hop Hr].
+          unfold LG in HL. rewrite lits_prefix in HL.
+          rewrite ee_prefix, he_prefix. rewrite ee_prefix in Hb.
+          apply (corrg_bind K pl _ _ _ _ Pval Pval); [|exact Hb| |].
+          -- intros a st1. destruct o; gr.
+          -- intros Hb1. apply (IHe false); assumption.
+          -- intros a a' sst1 m1 R1 Hi1 [Ha Hla] HR1 Hb1.
+             destruct o; try discriminate Hop.
+             ++ apply (corr_lift_h K pl _ _ _ _ _ _ _ HR1).
+                ** exact (negate_rel K R1 _ _ _ _ (RS_hr _ _ _ _ _ _ _ HR1) Ha).
+                ** apply negate_post. exact (RS_hints _ _ _ _ _ _ _ HR1).
+             ++ apply (corr_lift_p K pl _ _ _ _ _ _ _ HR1); [exact (lognot_rel R1 a a' Ha)|].
+                intros v Hv. destruct a'; try discriminate Hv. inversion Hv. reflexivity.
+             ++ apply (corr_lift_h K pl _ _ _ _ _ _ _ HR1).
+                ** exact (negate_rel K R1 _ _ _ _ (RS_hr _ _ _ _ _ _ _ HR1) Ha).
+                ** apply negate_post. exact (RS_hints _ _ _ _ _ _ _ HR1).
+        * (* EInt *)
+          rewrite ee_int, he_int. exists R. split; [apply rel_incl_refl|]. split; [|exact HR].
+          split; [constructor|]. cbn [f2he] in HF. unfold lit_ok in HF. apply andb_prop in HF. destruct HF as [H0 _].
+          cbn [int_lb]. apply Z.leb_le. apply Z.leb_le in H0. pose proof MIN_INT_val. lia.
+        * (* EFloat *)
+          rewrite ee_float, he_float. apply float_lit_corr; [exact HR|].
+          unfold LG in HL. cbn [lits_e] in HL. inversion HL; assumption.
+        * (* EBool *)
+          rewrite ee_bool, he_bool. exists R. split; [apply rel_incl_refl|]. split; [|exact HR].
+          split; [constructor|reflexivity].
+        * (* EIf *)
+          rewrite f2he_if in HF. apply andb_prop in HF. destruct HF as [HF Ha].
+          apply andb_prop in HF. destruct HF as [Hcn Ht].
+          unfold LG in HL. rewrite lits_if in HL.
+          rewrite ee_if, he_if. rewrite ee_if in Hb.
+          assert (holes_ok holes ds cnd) as Hok1.
+          { intros h y cc Hin Hn. pose proof (Hok h y cc Hin Hn) as Hm. rewrite mentions_if in Hm.
+            exact (orb_false_l _ _ (orb_false_l _ _ Hm)). }
+          assert (holes_ok_b holes ds t) as Hok2.
+          { intros h y cc Hin Hn. pose proof (Hok h y cc Hin Hn) as Hm. rewrite mentions_if in Hm.
+            exact (orb_false_r' _ _ (orb_false_l _ _ Hm)). }
+          apply (corrg_bind K pl _ _ _ _ Pval Pval); [|exact Hb| |].
+          -- intros b st1. destruct b as [|[|]| | | | |]; try gr_triv.
+             ++ exact (Gs lp t _ VNull st1 Ht).
+             ++ destruct alt as [bl|]; [exact (Gs lp bl _ VNull st1 Ha)|gr_triv].
+          -- intros Hb1. apply (IHe false); try assumption. exact (Forall_app_l _ _ _ _ HL).
+          -- intros b b' sst1 m1 R1 Hi1 [Hbv _] HR1 Hb1.
+             destruct Hbv as [|[|]|z|l l' Hl|l l' Hl|l l' Hl]; try exact (err_corr K pl _ _ _ _ _ _ HR1).
+             ++ exact (IHs lp t (d_push c) ds sst1 m1 holes R1 VNull VNull Ht
+                         (Forall_app_l _ _ _ _ (Forall_app_r _ _ _ _ HL)) (ctx_flat_push _ _ Hc) HR1 Hlt Hok2
+                         (Pval_null R1) Hb1).
+             ++ destruct alt as [bl|].
+                ** assert (holes_ok_b holes ds bl) as Hok3.
+                   { intros h y cc Hin Hn. pose proof (Hok h y cc Hin Hn) as Hm. rewrite mentions_if in Hm.
+                     exact (orb_false_r' _ _ Hm). }
+                   exact (IHs lp bl (d_push c) ds sst1 m1 holes R1 VNull VNull Ha
+                            (Forall_app_r _ _ _ _ (Forall_app_r _ _ _ _ HL)) (ctx_flat_push _ _ Hc) HR1 Hlt Hok3
+                            (Pval_null R1) Hb1).
+                ** exists R1. split; [apply rel_incl_refl|]. split; [apply Pval_null|exact HR1].
+        * (* EIdent *)
+          rewrite ee_ident, he_ident, (d_lookup_flat _ _ _ Hc).
+          pose proof (lookup_agree ds s) as HLk.
+          destruct (rposition s (map fst ds)) as [i|] eqn:Er.
+          -- destruct HLk as [y [cc [Hi Hcc]]]. rewrite Hcc.
+             exists R. split; [apply rel_incl_refl|]. split; [|exact HR]. split.
+             ++ apply (RS_val _ _ _ _ _ _ _ HR i y cc Hi).
+                apply (lookup_not_hole holes ds s i y cc); [exact Hok|exact Er|exact Hi].
+             ++ apply ints_nth. exact (RS_gints _ _ _ _ _ _ _ HR).
+          -- rewrite HLk. split; [reflexivity|exact (RS_out _ _ _ _ _ _ _ HR)].
+        * (* ECall *)
+          rewrite f2he_call in HF. apply andb_prop in HF. destruct HF as [Hfn Hargs].
+          destruct h as [| | | | | |x| | | | | | |]; try discriminate Hfn. unfold is_builtin_name in Hfn.
+          destruct (assoc_text x builtin_names) as [b|] eqn:Eb; [|discriminate Hfn].
+          unfold LG in HL. rewrite lits_call in HL.
+          rewrite (ee_call_builtin orc f c x b args sst Eb), (he_call orc pl f (map fst ds) x b args m Eb).
+          rewrite (ee_call_builtin orc f c x b args sst Eb) in Hb.
+          apply (corrg_bind K pl _ _ _ _ Plist Pval); [|exact Hb| |].
+          -- intros; gr.
+          -- intros Hb1. apply (list_agree f IHe); try assumption.
+             ++ exact (Forall_app_l _ _ _ _ HL).
+             ++ intros hh y cc Hin Hn. pose proof (Hok hh y cc Hin Hn) as Hm. rewrite mentions_call in Hm.
+                exact (orb_false_r' _ _ Hm).
+          -- intros xs xs' sst1 m1 R1 Hi1 Hxs HR1 Hb1. apply builtin_corr; assumption.
+        * (* EAssign *)
+          cbn [f2he] in HF. destruct e1 as [| | | | | |x| | | | | |bs i|]; try discriminate HF.
+          -- (* a variable *)
+             unfold LG in HL. rewrite lits_assign in HL.
+             rewrite ee_assign_ident, he_assign, (d_lookup_flat _ _ _ Hc).
+             rewrite ee_assign_ident, (d_lookup_flat _ _ _ Hc) in Hb.
+             pose proof (lookup_agree ds x) as HLk.
+             destruct (rposition x (map fst ds)) as [i|] eqn:Er.
+             ++ destruct HLk as [y [cc [Hi Hcc]]]. rewrite Hcc. rewrite Hcc in Hb.
+                assert (holes_ok holes ds e2) as Hok2.
+                { intros h y' c' Hin Hn. pose proof (Hok h y' c' Hin Hn) as Hm. rewrite mentions_assign in Hm.
+                  exact (orb_false_r' _ _ Hm). }
+                apply (corrg_bind K pl _ _ _ _ Pval Pval); [|exact Hb| |].
+                ** intros; gr_triv.
+                ** intros Hb1. apply (IHe false); assumption.
+                ** intros a a' sst1 m1 R1 Hi1 [Ha Hla] HR1 _.
+                   exists R1. split; [apply rel_incl_refl|]. split; [split; assumption|].
+                   apply (RelS_set K pl holes holes ds R1 sst1 m1 i y cc a a' HR1 Hi Ha Hla). intros j Hj. right. exact Hj.
+             ++ rewrite HLk. split; [reflexivity|exact (RS_out _ _ _ _ _ _ _ HR)].
+          -- (* an element *)
+             apply andb_prop in HF. destruct HF as [HF H3]. apply andb_prop in HF. destruct HF as [H1 H2].
+             unfold LG in HL. rewrite lits_assign, lits_index in HL.
+             rewrite ee_assign_index, he_assign_index. rewrite ee_assign_index in Hb.
+             assert (holes_ok holes ds bs) as Hok1.
+             { intros h y cc Hin Hn. pose proof (Hok h y cc Hin Hn) as Hm. rewrite mentions_assign, mentions_index in Hm.
+               exact (orb_false_l _ _ (orb_false_l _ _ Hm)). }
+             assert (holes_ok holes ds i) as Hok2.
+             { intros h y cc Hin Hn. pose proof (Hok h y cc Hin Hn) as Hm. rewrite mentions_assign, mentions_index in Hm.
+               exact (orb_false_r' _ _ (orb_false_l _ _ Hm)). }
+             assert (holes_ok holes ds e2) as Hok3.
+             { intros h y cc Hin Hn. pose proof (Hok h y cc Hin Hn) as Hm. rewrite mentions_assign in Hm.
+               exact (orb_false_r' _ _ Hm). }
+             apply (corrg_bind K pl _ _ _ _ Pval Pval); [|exact Hb| |].
+             ++ intros a st1. apply grows_rbind; [exact (Ge false i c st1 H2)|]. intros ix st2.
+                apply grows_rbind; [exact (Ge false e2 c st2 H3)|]. intros; gr.
+             ++ intros Hb1. apply (IHe false); try assumption.
+                exact (Forall_app_l _ _ _ _ (Forall_app_l _ _ _ _ HL)).
+             ++ intros a a' sst1 m1 R1 Hi1 Pa HR1 Hb1.
+                apply (corrg_bind K pl _ _ _ _ Pval Pval); [|exact Hb1| |].
+                ** intros ix st2. apply grows_rbind; [exact (Ge false e2 c st2 H3)|]. intros; gr.
+                ** intros Hb2. apply (IHe false); try assumption.
+                   exact (Forall_app_r _ _ _ _ (Forall_app_l _ _ _ _ HL)).
+                ** intros ix ix' sst2 m2 R2 Hi2 Pi HR2 Hb2.
+                   apply (corrg_bind K pl _ _ _ _ Pval Pval); [|exact Hb2| |].
+                   --- intros; gr.
+                   --- intros Hb3. apply (IHe false); try assumption. exact (Forall_app_r _ _ _ _ HL).
+                   --- intros v v' sst3 m3 R3 Hi3 Pv HR3 _.
+                       apply index_set_corr; try assumption.
+                       +++ exact (Pval_mono _ _ _ _ (rel_incl_trans _ _ _ Hi2 Hi3) Pa).
+                       +++ exact (Pval_mono _ _ _ _ Hi3 Pi).
+        * (* EString *)
+          rewrite ee_string, he_string. apply str_lit_corr; [exact HR|].
+          unfold LG in HL. cbn [lits_e] in HL. inversion HL; assumption.
+        * (* EArray *)
+          rewrite f2he_array in HF. unfold LG in HL. rewrite lits_array in HL.
+          rewrite ee_array, he_array. rewrite ee_array in Hb.
+          apply (corrg_bind K pl _ _ _ _ Plist Pval); [|exact Hb| |].
+          -- intros; gr.
+          -- intros Hb1. apply (list_agree f IHe); assumption.
+          -- intros xs xs' sst1 m1 R1 Hi1 Hxs HR1 Hb1. apply array_corr; assumption.
+        * (* EIndex *)
+          rewrite f2he_index in HF. apply andb_prop in HF. destruct HF as [H1 H2].
+          unfold LG in HL. rewrite lits_index in HL.
+          rewrite ee_index, he_index. rewrite ee_index in Hb.
+          assert (holes_ok holes ds bs) as Hok1.
+          { intros h y cc Hin Hn. pose proof (Hok h y cc Hin Hn) as Hm. rewrite mentions_index in Hm.
+            exact (orb_false_l _ _ Hm). }
+          assert (holes_ok holes ds i) as Hok2.
+          { intros h y cc Hin Hn. pose proof (Hok h y cc Hin Hn) as Hm. rewrite mentions_index in Hm.
+            exact (orb_false_r' _ _ Hm). }
+          apply (corrg_bind K pl _ _ _ _ Pval Pval); [|exact Hb| |].
+          -- intros a st1. apply grows_rbind; [exact (Ge false i c st1 H2)|]. intros; gr.
+          -- intros Hb1. apply (IHe false); try assumption. exact (Forall_app_l _ _ _ _ HL).
+          -- intros a a' sst1 m1 R1 Hi1 Pa HR1 Hb1.
+             apply (corrg_bind K pl _ _ _ _ Pval Pval); [|exact Hb1| |].
+             ++ intros; gr.
+             ++ intros Hb2. apply (IHe false); try assumption. exact (Forall_app_r _ _ _ _ HL).
+             ++ intros ix ix' sst2 m2 R2 Hi2 Pi HR2 _.
+                apply index_get_corr; try assumption. exact (Pval_mono _ _ _ _ Hi2 Pa).
+        * (* EWhile *)
+          rewrite f2he_while in HF. apply andb_prop in HF. destruct HF as [Hcn Hbd].
+          unfold LG in HL. rewrite lits_while in HL.
+          rewrite ee_while, he_while. rewrite ee_while in Hb. apply IHw; try assumption.
+          -- exact (Forall_app_l _ _ _ _ HL).
+          -- exact (Forall_app_r _ _ _ _ HL).
+          -- intros h y cc Hin Hn. pose proof (Hok h y cc Hin Hn) as Hm. rewrite mentions_while in Hm.
+             exact (orb_false_l _ _ Hm).
+          -- intros h y cc Hin Hn. pose proof (Hok h y cc Hin Hn) as Hm. rewrite mentions_while in Hm.
+             exact (orb_false_r' _ _ Hm).
+          -- apply Pval_null.
+      + (* loops *)
+        intros iter cnd body c ds sst m holes R last last' Hcn Hbd HLc HLb Hc HR Hlt Hok1 Hok2 Plast Hb.
+        rewrite ew_step, hw_step. rewrite ew_step in Hb.
+        apply (corrg_bind K pl _ _ _ _ Pval Pval); [|exact Hb| |].
+        * intros b st1. destruct b as [|[|]| | | | |]; try gr_triv.
+          pose proof (Gs true body (d_push c) VNull st1 Hbd) as Hbody.
+          destruct (exec_block orc f (d_push c) body VNull st1) as [v s2|[| |rv] s2|k s2|x s2|]; try exact Hbody;
+            unfold grows in Hbody; cbn [rstate] in Hbody.
+          -- apply (grows_same _ st1 s2); [exact Hbody|]. exact (Gw iter cnd body c v s2 Hcn Hbd).
+          -- apply (grows_same _ st1 s2); [exact Hbody|]. exact (Gw iter cnd body c VNull s2 Hcn Hbd).
+        * intros Hb1. apply (IHe false); assumption.
+        * intros b b' sst1 m1 R1 Hi1 [Hbv _] HR1 Hb1.
+          destruct Hbv as [|[|]|z|l l' Hl|l l' Hl|l l' Hl]; try exact (err_corr K pl _ _ _ _ _ _ HR1).
+          -- (* another iteration *)
+             assert (bounded (exec_block orc f (d_push c) body VNull sst1) ->
+                     corr holes ds R1 (exec_block orc f (d_push c) body VNull sst1)
+                                      (hstmts orc pl f (map fst ds) body VNull m1)) as Hbody.
+             { intros Hbb. exact (IHs true body (d_push c) ds sst1 m1 holes R1 VNull VNull Hbd HLb
+                                     (ctx_flat_push _ _ Hc) HR1 Hlt Hok2 (Pval_null R1) Hbb). }
+             destruct (exec_block orc f (d_push c) body VNull sst1) as [v s2|[| |rv] s2|k s2|x s2|] eqn:Eb.
+             ++ destruct (rstate (eval_while orc f iter c cnd body v s2)) as [s3|] eqn:Es;
+                  [|destruct (eval_while orc f iter c cnd body v s2); cbn [rstate] in Es; try discriminate Es; exact I].
+                assert (bounded (@ROk val v s2)) as Hb2.
+                { unfold bounded. cbn [rstate].
+                  apply (bounded_grows K _ s2 _ (Gw iter cnd body c v s2 Hcn Hbd) Hb1). rewrite Es. discriminate. }
+                specialize (Hbody Hb2).
+                destruct (hstmts orc pl f (map fst ds) body VNull m1) as [v' m2|m2|m2|k' o|f' o|]; cbn [corr corrg] in Hbody;
+                  try contradiction.
+                destruct Hbody as [R2 [Hi2 [Pv HR2]]].
+                apply (corrg_weaken K pl _ _ _ _ _ R1 R2 _ _ Hi2). apply IHw; try assumption.
+             ++ assert (bounded (@RSig val SigBreak s2)) as Hb2 by exact Hb1.
+                specialize (Hbody Hb2).
+                destruct (hstmts orc pl f (map fst ds) body VNull m1) as [v' m2|m2|m2|k' o|f' o|]; cbn [corr corrg] in Hbody;
+                  try contradiction.
+                destruct Hbody as [R2 [Hi2 HR2]]. exists R2. split; [exact Hi2|]. split; [apply Pval_null|exact HR2].
+             ++ destruct (rstate (eval_while orc f iter c cnd body VNull s2)) as [s3|] eqn:Es;
+                  [|destruct (eval_while orc f iter c cnd body VNull s2); cbn [rstate] in Es; try discriminate Es; exact I].
+                assert (bounded (@RSig val SigContinue s2)) as Hb2.
+                { unfold bounded. cbn [rstate].
+                  apply (bounded_grows K _ s2 _ (Gw iter cnd body c VNull s2 Hcn Hbd) Hb1). rewrite Es. discriminate. }
+                specialize (Hbody Hb2).
+                destruct (hstmts orc pl f (map fst ds) body VNull m1) as [v' m2|m2|m2|k' o|f' o|]; cbn [corr corrg] in Hbody;
+                  try contradiction.
+                destruct Hbody as [R2 [Hi2 HR2]].
+                apply (corrg_weaken K pl _ _ _ _ _ R1 R2 _ _ Hi2). apply IHw; try assumption. apply Pval_null.
+             ++ assert (bounded (@RSig val (SigReturn rv) s2)) as Hb2 by exact Hb1.
+                specialize (Hbody Hb2). cbn [corr corrg] in Hbody. contradiction.
+             ++ assert (bounded (@RErr val k s2)) as Hb2 by exact Hb1.
+                specialize (Hbody Hb2).
+                destruct (hstmts orc pl f (map fst ds) body VNull m1) as [v' m2|m2|m2|k' o|f' o|]; cbn [corr corrg] in Hbody;
+                  try contradiction. exact Hbody.
+             ++ assert (bounded (@RFault val x s2)) as Hb2 by exact Hb1.
+                specialize (Hbody Hb2).
+                destruct (hstmts orc pl f (map fst ds) body VNull m1) as [v' m2|m2|m2|k' o|f' o|]; cbn [corr corrg] in Hbody;
+                  try contradiction. exact Hbody.
+             ++ exact I.
+          -- (* the condition is false *)
+             exists R1. split; [apply rel_incl_refl|]. split; [exact (Pval_mono _ _ _ _ Hi1 Plast)|exact HR1].
+      + (* statement lists *)
+        intros lp l c ds sst m holes R last last' HF HL Hc HR Hlt Hok Plast Hb. destruct l as [|s r].
+        { rewrite eb_nil, hb_nil. exists R. split; [apply rel_incl_refl|]. split; [exact Plast|exact HR]. }
+        rewrite f2hb_cons in HF. apply andb_prop in HF. destruct HF as [Hs Hr].
+        unfold LGb in HL. rewrite lits_b_cons in HL.
+        assert (holes_ok_b holes ds r) as Hokr.
+        { intros h y cc Hin Hn. pose proof (Hok h y cc Hin Hn) as Hm. cbn [mentions_b] in Hm.
+          exact (orb_false_r' _ _ Hm). }
+        destruct s as [x e|e|e|b| |]; try discriminate Hs.
+        * (* SLet *)
+          cbn [f2hs] in Hs. apply andb_prop in Hs. destruct Hs as [He Hnm]. apply negb_true_iff in Hnm.
+          rewrite eb_let, hb_let. rewrite eb_let in Hb. unfold new_cell in *.
+          set (cl := st_next sst) in *.
+          set (sst1 := mkSt (st_heap sst) (st_cells sst) (Pos.succ cl) (st_funs sst) (st_out sst)) in *.
+          set (ds' := ds ++ [(x, cl)]).
+          assert (map fst ds ++ [x] = map fst ds') as -> by (unfold ds'; rewrite map_app; reflexivity).
+          rewrite map_length.
+          pose proof (RelS_declare K pl holes ds R sst m x HR) as HR1. fold cl ds' in HR1.
+          change (snd (new_cell sst)) with sst1 in HR1.
+          pose proof (ctx_flat_declare c ds x cl Hc) as Hc1. fold ds' in Hc1.
+          assert (nth_error ds' (length ds) = Some (x, cl)) as Hnth.
+          { unfold ds'. rewrite nth_error_app2, Nat.sub_diag by lia. reflexivity. }
+          assert (forall h y cc, In h holes -> nth_error ds' h = Some (y, cc) -> nth_error ds h = Some (y, cc)) as Hold.
+          { intros h y cc Hin Hn. unfold ds' in Hn. rewrite nth_error_app1 in Hn by (apply Hlt; exact Hin). exact Hn. }
+          assert (holes_lt holes ds') as Hlt'.
+          { intros h Hin. unfold ds'. rewrite app_length. specialize (Hlt h Hin). lia. }
+          assert (holes_lt (length ds :: holes) ds') as Hlt1.
+          { intros h [<-|Hin]; [unfold ds'; rewrite app_length; cbn [length]; lia|apply Hlt'; exact Hin]. }
+          assert (holes_ok (length ds :: holes) ds' e) as Hoke.
+          { intros h y cc [<-|Hin] Hn.
+            - rewrite Hnth in Hn. inversion Hn; subst. exact Hnm.
+            - pose proof (Hok h y cc Hin (Hold h y cc Hin Hn)) as Hm. cbn [mentions_b mentions_s] in Hm.
+              exact (orb_false_l _ _ Hm). }
+          assert (holes_ok_b holes ds' r) as Hokr'.
+          { intros h y cc Hin Hn. exact (Hokr h y cc Hin (Hold h y cc Hin Hn)). }
+          apply (corrg_prefix K pl _ _ _ holes ds [(x, cl)]). fold ds'.
+          apply (corrg_bind2 _ _ _ _ Pval Pval (length ds :: holes) ds' holes ds'); [|exact Hb| | |].
+          -- intros v st2. apply (grows_cells _ st2 (Sem.set_cell cl v st2)); [reflexivity|].
+             exact (Gs lp r _ VNull _ Hr).
+          -- exact (proj1 (heval_nosig orc pl f) e (map fst ds') m He).
+          -- intros Hb1. apply (IHe false); try assumption. exact (Forall_app_l _ _ _ _ HL).
+          -- intros v v' sst2 m2 R2 Hi2 [Hv Hlv] HR2 Hb2.
+             assert (RelS holes ds' R2 (Sem.set_cell cl v sst2) (set_global_h (length ds) v' m2)) as R3.
+             { apply (RelS_set K pl (length ds :: holes) holes ds' R2 sst2 m2 (length ds) x cl v v' HR2 Hnth Hv Hlv).
+               intros j Hj. destruct (Nat.eq_dec j (length ds)) as [->|Hne]; [left; reflexivity|right].
+               intros [E|Hin]; [apply Hne; symmetry; exact E|contradiction]. }
+             apply (IHs lp); try assumption; [exact (Forall_app_r _ _ _ _ HL)|apply Pval_null].
+        * (* SExpr *)
+          cbn [f2hs] in Hs. rewrite eb_expr, hb_expr. rewrite eb_expr in Hb.
+          assert (holes_ok holes ds e) as Hoke.
+          { intros h y cc Hin Hn. pose proof (Hok h y cc Hin Hn) as Hm. cbn [mentions_b mentions_s] in Hm.
+            exact (orb_false_l _ _ Hm). }
+          assert (forall st1 : sstate, match e with
+                  | EFunction (ch :: name) _ _ => d_declare c (ch :: name) (Pos.pred (st_next st1))
+                  | _ => c
+                  end = c) as Ec.
+          { intros st1. destruct e; try discriminate Hs; reflexivity. }
+          apply (corrg_bind K pl _ _ _ _ Pval Pval); [|exact Hb| |].
+          -- intros v st1. rewrite Ec. exact (Gs lp r c v st1 Hr).
+          -- intros Hb1. apply (IHe lp); try assumption. exact (Forall_app_l _ _ _ _ HL).
+          -- intros v v' sst1 m1 R1 Hi1 Pv HR1 Hb1. rewrite Ec. rewrite Ec in Hb1.
+             apply (IHs lp); try assumption. exact (Forall_app_r _ _ _ _ HL).
+        * (* SBlock *)
+          rewrite f2hs_block in Hs. rewrite eb_block, hb_block. rewrite eb_block in Hb.
+          rewrite lits_s_block in HL.
+          assert (holes_ok_b holes ds b) as Hokb.
+          { intros h y cc Hin Hn. pose proof (Hok h y cc Hin Hn) as Hm. cbn [mentions_b] in Hm.
+            rewrite mentions_block in Hm. exact (orb_false_l _ _ Hm). }
+          apply (corrg_bind K pl _ _ _ _ Pval Pval); [|exact Hb| |].
+          -- intros v st1. exact (Gs lp r c v st1 Hr).
+          -- intros Hb1. exact (IHs lp b (d_push c) ds sst m holes R VNull VNull Hs (Forall_app_l _ _ _ _ HL)
+                                   (ctx_flat_push _ _ Hc) HR Hlt Hokb (Pval_null R) Hb1).
+          -- intros v v' sst1 m1 R1 Hi1 Pv HR1 Hb1.
+             apply (IHs lp); try assumption. exact (Forall_app_r _ _ _ _ HL).
+        * rewrite eb_break, hb_break. exists R. split; [apply rel_incl_refl|exact HR].
+        * rewrite eb_continue, hb_continue. exists R. split; [apply rel_incl_refl|exact HR].
+  Qed.
+End Agree.
+
+Print Assumptions sem_heval.
